@@ -44,7 +44,7 @@ ASSUMPTIONS = ['TIF-marked LIS files whose first record is exactly 276 bytes sha
 SHARDS = {'quick': 4, 'thorough': 16}
 REQUIRED_CLASSES = {'valid-RP66V1': 1, 'valid-LIS': 1, 'valid-LISt': 1, 'valid-LIStr': 1, 'valid-LAS1.2': 1, 'valid-LAS2.0': 1, 'valid-BIT': 1,
                     'valid-DAT': 1, 'arbitrary-truncation': 1, 'arbitrary-mutation': 1, 'arbitrary-splice': 1, 'arbitrary-random': 1, 'arbitrary-text-token': 1,
-                    'valid-DAT-first-row-beyond-4KiB': 1, 'valid-file>8KiB': 1, 'arbitrary-ebcdic': 1, 'valid-BIT-20-channels': 1, 'valid-LIS-over-100-even-records-then-odd': 1, 'valid-file-from-path': 1}
+                    'valid-DAT-first-row-beyond-4KiB': 1, 'valid-file>8KiB': 1, 'arbitrary-ebcdic': 1, 'valid-BIT-20-channels': 1, 'valid-LIS-over-100-even-records-then-odd': 1, 'valid-file-from-path': 1, 'valid-LIS-padded-records': 1, 'valid-LIS-TIF-padded-by>=12': 1}
 
 
 class Timeout(Exception):
@@ -125,6 +125,9 @@ def lis_expected(case):
     data, model = GL.build_lis_file(case)
     tif = case['cfg']['tif']
     first_pr_len = model['phys']['prs'][0][0][4]
+    pad = case['cfg'].get('pad')
+    if pad:     # what the first TIF marker spans: the record and its padding
+        first_pr_len += max(0, pad[1] - first_pr_len) if pad[0] == 'min' else (-first_pr_len) % pad[1]
     if tif != 'none' and first_pr_len == 276:
         return data, None, 'excluded-lis-first-record-276'
     if tif == 'reversed' and GL.TIF_LEN + first_pr_len in (0x100, 0x10000):
@@ -144,6 +147,12 @@ def valid_cases(draw):
             many = {'n': draw(st.integers(90, 140)), 'len': 2 * draw(st.integers(1, 20)),
                     'odd': draw(st.lists(st.integers(0, 20).map(lambda k: 2 * k + 1), min_size=1, max_size=6))}
             return {'fmt': fmt, 'model': dict(draw(GL.lis_files(max_passes=1, max_frames=4, tables=False, allow_dipmeter=False)), many=many)}
+        if draw(st.integers(0, 2)) == 0:
+            # physical records followed by null padding: to a multiple of 2 or 4 bytes (any file), or to a minimum record
+            # length (LIS-79 2.3.1.1; only TIF-marked files, where the marker says where the next record starts)
+            m = draw(GL.lis_files(max_passes=1, max_frames=8))
+            pad = draw(st.sampled_from([('mod', 2), ('mod', 4)] + ([('min', 32), ('min', 64), ('min', 80), ('min', 100), ('min', 160), ('min', 256)] * 2 if m['cfg']['tif'] != 'none' else [])))
+            return {'fmt': fmt, 'model': dict(m, cfg=dict(m['cfg'], pad=list(pad)))}
         if draw(st.integers(0, 3)) == 0:   # the smallest conformant files: header, one log pass, trailer
             return {'fmt': fmt, 'model': draw(GL.lis_files(max_passes=1, max_frames=4, tables=False, allow_dipmeter=False))}
         return {'fmt': fmt, 'model': draw(GL.lis_files(max_passes=2, max_frames=20))}
@@ -224,6 +233,8 @@ def check_valid(case, cc):
     cc.cls('valid-' + exp)
     cc.cls('valid-file>8KiB', len(data) > 8192)
     cc.cls('valid-LIS-over-100-even-records-then-odd', case['fmt'] == 'LIS' and bool(case['model'].get('many')) and case['model']['many']['n'] > 100)
+    cc.cls('valid-LIS-padded-records', case['fmt'] == 'LIS' and bool(case['model']['cfg'].get('pad')))
+    cc.cls('valid-LIS-TIF-padded-by>=12', case['fmt'] == 'LIS' and (case['model']['cfg'].get('pad') or [''])[0] == 'min' and case['model']['cfg']['pad'][1] >= 64)
     cc.cls('valid-BIT-20-channels', exp == 'BIT' and any(len(p['channels']) == 20 for p in case['model']['passes']))
     cc.cls('valid-DAT-first-row-beyond-4KiB', exp == 'DAT' and _dat_first_row_end(data) > 4096)
     cc.nt(nt)
